@@ -693,7 +693,6 @@ func (x *Explorer) runOnce(h *ssa.Function) (outcome string) {
 	x.pending = nil
 	in.ensureInit(in.MainPkg)
 	in.callFn(h, nil, nil, nil)
-	in.runSpawned()
 	x.flushAsserts()
 	if x.ShardN > 1 && x.realDecs < x.ShardDepth && !x.ownsPrefix() {
 		return "notowned"
